@@ -29,12 +29,16 @@ enum Cmd {
     TcpListen(u16),
     TcpConnect,
     Drop(usize),
+    /// split the k-th live object (a stream), shut its write half down, drop the write
+    /// half and keep the read half: the stream stays live
+    HalfClose(usize),
 }
 
 enum Obj {
     Udp(UdpSocket),
     Listener(TcpListener),
     Stream(TcpStream),
+    ReadHalf(turmoil::net::tcp::OwnedReadHalf),
 }
 
 #[derive(Default)]
@@ -49,6 +53,7 @@ enum MKind {
     Udp,
     Listener,
     Stream,
+    HalfClosedStream,
 }
 
 pub fn ports_scenario(ch: &mut Chooser, thorough: bool) -> Exec {
@@ -139,6 +144,23 @@ pub fn ports_scenario(ch: &mut Chooser, thorough: bool) -> Exec {
                             }
                             "dropped".into()
                         }
+                        Cmd::HalfClose(k) => {
+                            let live: Vec<usize> = (0..objs.len()).filter(|&i| objs[i].is_some()).collect();
+                            match live.get(k).map(|&i| (i, objs[i].take())) {
+                                Some((i, Some(Obj::Stream(s)))) => {
+                                    let (r, mut w) = s.into_split();
+                                    let sd = tokio::io::AsyncWriteExt::shutdown(&mut w).await;
+                                    drop(w);
+                                    objs[i] = Some(Obj::ReadHalf(r));
+                                    format!("half-closed {}", if sd.is_ok() { "ok" } else { "err" })
+                                }
+                                Some((i, other)) => {
+                                    objs[i] = other;
+                                    "not a stream".into()
+                                }
+                                None => "no such object".into(),
+                            }
+                        }
                     };
                     st_h.borrow_mut().results.push(res);
                 }
@@ -171,10 +193,30 @@ pub fn ports_scenario(ch: &mut Chooser, thorough: bool) -> Exec {
         for k in 0..live.len().min(4) {
             menu.push((format!("drop live object #{k}"), Some(Cmd::Drop(k))));
         }
+        if let Some(k) = live.iter().position(|x| x.0 == MKind::Stream) {
+            menu.push((format!("split live object #{k} (a stream), shut down and drop its write half, keep the read half"), Some(Cmd::HalfClose(k))));
+        }
+        let crash_mid_connect = menu.len();
+        menu.push(("tcp connect peer:80, crash while the SYN is in flight, bounce".into(), None));
         let pick = ch.choose("op", menu.len());
         let (desc, cmd) = menu[pick].clone();
         obs.push(desc.clone());
         let Some(cmd) = cmd else {
+            if pick == crash_mid_connect {
+                st.borrow_mut().cmds.push_back(Cmd::TcpConnect);
+                wake.notify_one();
+                if let Err(e) = vx_core::catch(|| sim.step()).unwrap_or_else(|p| Err(p.into())) {
+                    // every port taken: the documented exhaustion panic
+                    let used = in_use(&live);
+                    if (LO..=HI).all(|p| used.contains(&p)) {
+                        feats.push("exhaustion-panic");
+                    } else {
+                        violation = Some(Violation::new("sim-error", e.to_string()));
+                    }
+                    break 'run;
+                }
+                st.borrow_mut().cmds.clear();
+            }
             sim.crash("h");
             let counts = sim.verif_host_counts("h");
             if counts != (0, 0, 0) {
@@ -280,6 +322,14 @@ pub fn ports_scenario(ch: &mut Chooser, thorough: bool) -> Exec {
                     live.remove(k);
                     feats.push("dropped");
                 }
+            }
+            Cmd::HalfClose(k) => {
+                if res != "half-closed ok" {
+                    violation = Some(Violation::new("half-close", format!("`{desc}` returned `{res}`")));
+                    break 'run;
+                }
+                live[k].0 = MKind::HalfClosedStream;
+                feats.push("half-closed");
             }
         }
     }
